@@ -10,7 +10,7 @@ PROPERTY = Property(
     "C08", "proof",
     contracts=PROVED,
     standins=[StandIn("Plugin.iter alignment / exactly-once over independent chunkings (real code)", B.plugin_iter, B.plugin_iter.harness,
-                      budget={"quick": 60, "thorough": 600})],
+                      budget={"quick": 100, "thorough": 700})],
     trusted=["pyvc VC generator and value model", "z3 5.1.0 / cvc5 1.4.0"],
     assumptions=["do_compute is verified per arity (1, 2, 3 keyword inputs) for single-output plugins (save_when one SaveWhen value); "
                  "compute, _fix_output and _check_subruns_uniqueness are abstract calls whose arguments are recorded",
